@@ -390,17 +390,55 @@ def trial_obs(t):
   }
 
 
+def _state_factory(bs, run):
+  exf = make_experimenter_factory(run['experimenter'])
+  df = designer_factory(run['designer'], run.get('opts') or {},
+                        run.get('entry', 'ctor'))
+  if run.get('via') == 'exptr':
+    return bs.DesignerBenchmarkStateFactory(
+        experimenter=exf(), designer_factory=df)
+  return bs.ExperimenterDesignerBenchmarkStateFactory(
+      experimenter_factory=exf, designer_factory=df)
+
+
+def _subroutines(br, protocol, reseed):
+  subs = []
+  for op in protocol:
+    if op[0] == 'suggest':
+      subs.append(br.GenerateSuggestions(op[1]))
+    elif op[0] == 'evaluate':
+      subs.append(br.EvaluateActiveTrials(op[1]))
+    elif op[0] == 'suggest_evaluate':
+      subs.append(br.GenerateAndEvaluate(op[1]))
+    elif op[0] == 'fill':
+      subs.append(br.FillActiveTrials(op[1]))
+    else:
+      raise ValueError(op)
+    subs.append(reseed())
+  return subs
+
+
 def run_bench(run, env):
-  """A seeded benchmark run -> {'trials': [...], 'error': None|{...}}.
+  """A seeded benchmark run -> {'trials', 'prior', 'error': None|{...}}.
 
   run = {'designer', 'entry', 'opts', 'experimenter': {...}, 'seed',
          'via': 'exptr_factory'|'exptr',
          'protocol': [['suggest', n] | ['evaluate', k|None] |
-                      ['suggest_evaluate', n], ...], 'repeats': r}
+                      ['suggest_evaluate', n] | ['fill', n], ...],
+         'repeats': r,
+         'prior_studies': [{'guid': str|None, 'seed': int,
+                            'where': 'before'|'each_repeat',
+                            + the keys of a run that describe the prior
+                            benchmark (designer .. repeats)}, ...]}
+  Every prior study becomes an `EvaluateAndAddPriorStudy(benchmark_runner=
+  BenchmarkRunner(...), benchmark_state_factory=..., study_guid=guid,
+  seed=seed)` subroutine, placed before the repeated main protocol or at the
+  start of every repeat.  'prior' lists the prior studies attached to the
+  supporter, in insertion order, with their trials (GetTrials(study_guid=)).
   """
   from vizier._src.benchmarks.runners import benchmark_runner as br
   from vizier._src.benchmarks.runners import benchmark_state as bs
-  obs = {'trials': [], 'error': None}
+  obs = {'trials': [], 'prior': [], 'error': None}
   with environment(env) as tick:
     counter = [0]
 
@@ -413,31 +451,24 @@ def run_bench(run, env):
         tick(counter[0])
 
     try:
-      exf = make_experimenter_factory(run['experimenter'])
-      df = designer_factory(run['designer'], run.get('opts') or {},
-                            run.get('entry', 'ctor'))
-      if run.get('via') == 'exptr':
-        factory = bs.DesignerBenchmarkStateFactory(
-            experimenter=exf(), designer_factory=df)
-      else:
-        factory = bs.ExperimenterDesignerBenchmarkStateFactory(
-            experimenter_factory=exf, designer_factory=df)
-      state = factory(seed=run['seed'])
-      subs = []
-      for op in run['protocol']:
-        if op[0] == 'suggest':
-          subs.append(br.GenerateSuggestions(op[1]))
-        elif op[0] == 'evaluate':
-          subs.append(br.EvaluateActiveTrials(op[1]))
-        elif op[0] == 'suggest_evaluate':
-          subs.append(br.GenerateAndEvaluate(op[1]))
-        elif op[0] == 'fill':
-          subs.append(br.FillActiveTrials(op[1]))
-        else:
-          raise ValueError(op)
-        subs.append(Reseed())
-      runner = br.BenchmarkRunner(benchmark_subroutines=subs,
-                                  num_repeats=run.get('repeats', 1))
+      state = _state_factory(bs, run)(seed=run['seed'])
+      before, each = [], []
+      for ps in run.get('prior_studies') or []:
+        sub = br.EvaluateAndAddPriorStudy(
+            benchmark_runner=br.BenchmarkRunner(
+                benchmark_subroutines=_subroutines(br, ps['protocol'], Reseed),
+                num_repeats=ps.get('repeats', 1)),
+            benchmark_state_factory=_state_factory(bs, ps),
+            study_guid=ps.get('guid'), seed=ps['seed'])
+        (each if ps.get('where') == 'each_repeat' else before).extend(
+            [sub, Reseed()])
+      runner = br.BenchmarkRunner(
+          benchmark_subroutines=each + _subroutines(br, run['protocol'],
+                                                    Reseed),
+          num_repeats=run.get('repeats', 1))
+      if before:
+        runner = br.BenchmarkRunner(benchmark_subroutines=before + [runner],
+                                    num_repeats=1)
     except Exception as e:  # pylint: disable=broad-except
       obs['error'] = _err('setup', e)
       return obs
@@ -446,8 +477,14 @@ def run_bench(run, env):
     except Exception as e:  # pylint: disable=broad-except
       obs['error'] = _err('run', e)
     try:
-      obs['trials'] = [trial_obs(t)
-                       for t in state.algorithm.supporter.GetTrials()]
+      sup = state.algorithm.supporter
+      obs['trials'] = [trial_obs(t) for t in sup.GetTrials()]
+      explicit = {ps.get('guid') for ps in run.get('prior_studies') or []}
+      for guid in list(sup.prior_studies):
+        obs['prior'].append({
+            # an unnamed prior study gets a uuid1 guid: not compared
+            'guid': guid if guid in explicit else None,
+            'trials': [trial_obs(t) for t in sup.GetTrials(study_guid=guid)]})
     except Exception as e:  # pylint: disable=broad-except
       obs['error'] = obs['error'] or _err('get_trials', e)
   return obs
@@ -570,7 +607,8 @@ def same_params(pa, pb, rtol=0.0):
 def first_diff(oa, ob, rtol=0.0):
   """Compares two observations of `execute` -> None | (kind, detail).
 
-  kind: error | count | params | trial_count | trial_<field>
+  kind: error | count | params | trial_<field> | prior_study_count |
+        prior_study_guid | prior_trial_<field>
   """
   ea, eb = oa.get('error'), ob.get('error')
   if (ea is None) != (eb is None) or (ea and (ea['where'], ea['type']) != (
@@ -589,20 +627,37 @@ def first_diff(oa, ob, rtol=0.0):
           return 'params', 'suggest call #%d suggestion #%d: %r vs %r' % (
               i, j, pa, pb)
     return None
-  ta, tb = oa['trials'], ob['trials']
+  diff = _trials_diff(oa['trials'], ob['trials'], rtol, 'trial')
+  if diff is not None:
+    return diff
+  pa, pb = oa.get('prior') or [], ob.get('prior') or []
+  if len(pa) != len(pb):
+    return 'prior_study_count', '%d vs %d prior studies attached' % (
+        len(pa), len(pb))
+  for i, (a, b) in enumerate(zip(pa, pb)):
+    if a['guid'] != b['guid']:
+      return 'prior_study_guid', 'prior study #%d: %r vs %r' % (
+          i, a['guid'], b['guid'])
+    diff = _trials_diff(a['trials'], b['trials'], rtol, 'prior_trial')
+    if diff is not None:
+      return diff[0], 'prior study #%d (%s): %s' % (i, a['guid'], diff[1])
+  return None
+
+
+def _trials_diff(ta, tb, rtol, prefix):
   if len(ta) != len(tb):
-    return 'trial_count', '%d vs %d trials' % (len(ta), len(tb))
+    return prefix + '_count', '%d vs %d trials' % (len(ta), len(tb))
   for i, (a, b) in enumerate(zip(ta, tb)):
     for f in ('id', 'status', 'infeasible'):
       if a[f] != b[f]:
-        return 'trial_' + f, 'trial #%d: %r vs %r' % (i, a[f], b[f])
+        return prefix + '_' + f, 'trial #%d: %r vs %r' % (i, a[f], b[f])
     if not same_params(a['params'], b['params'], rtol):
-      return 'trial_params', 'trial #%d (id %s): %r vs %r' % (
+      return prefix + '_params', 'trial #%d (id %s): %r vs %r' % (
           i, a['id'], a['params'], b['params'])
     ma, mb = a['metrics'], b['metrics']
     if (ma is None) != (mb is None) or (ma is not None and not same_params(
         ma, mb, rtol)):
-      return 'trial_metrics', 'trial #%d (id %s): %r vs %r' % (
+      return prefix + '_metrics', 'trial #%d (id %s): %r vs %r' % (
           i, a['id'], ma, mb)
   return None
 
